@@ -12,6 +12,7 @@ package main
 
 import (
 	"bytes"
+	"context"
 	"crypto/ecdsa"
 	"crypto/elliptic"
 	crand "crypto/rand"
@@ -22,6 +23,7 @@ import (
 	"encoding/pem"
 	"flag"
 	"fmt"
+	quic "github.com/quic-go/quic-go"
 	"io"
 	"math/big"
 	"math/rand"
@@ -494,11 +496,13 @@ func (r *wrRun) serverPart(trusted, other *wrCA) {
 	badPair, _ := tls.X509KeyPair(badC, badK)
 	for _, pol := range []wrPolicy{{false, false}, {true, false}, {false, true}, {true, true}} {
 		token := "tok" + rhex(8)
+		quicPort := tnPort()
 		srv, err := env.StartServer(func(c *v1.ServerConfig) {
 			c.BindPort = tnPort()
 			c.Auth.Token = token
 			c.Transport.TLS.Force = pol.Force
 			c.Transport.TLS.CertFile, c.Transport.TLS.KeyFile = certF, keyF
+			c.QUICBindPort = quicPort
 			if pol.CA {
 				c.Transport.TLS.TrustedCaFile = caF
 			}
@@ -511,6 +515,34 @@ func (r *wrRun) serverPart(trusted, other *wrCA) {
 		// all peers of one policy run side by side; every one waits the same generous time for an answer
 		const answerWait = 4 * time.Second
 		var pwg sync.WaitGroup
+		// QUIC peers (TLS is part of the transport): the certificate rule is the same
+		for _, cert := range []string{"none", "trusted", "untrusted"} {
+			r.stats["peers"]++
+			pwg.Add(1)
+			go func(cert string) {
+				defer pwg.Done()
+				tc := &tls.Config{InsecureSkipVerify: true, NextProtos: []string{"frp"}}
+				switch cert {
+				case "trusted":
+					tc.Certificates = []tls.Certificate{goodPair}
+				case "untrusted":
+					tc.Certificates = []tls.Certificate{badPair}
+				}
+				ctx, cancel := context.WithTimeout(context.Background(), answerWait+3*time.Second)
+				defer cancel()
+				resp := false
+				if qc, err := quic.DialAddr(ctx, fmt.Sprintf("127.0.0.1:%d", quicPort), tc, &quic.Config{MaxIdleTimeout: 10 * time.Second}); err == nil {
+					if st, err := qc.OpenStreamSync(ctx); err == nil {
+						_, _ = st.Write(frame)
+						_ = st.SetReadDeadline(time.Now().Add(answerWait))
+						n, _ := st.Read(make([]byte, 1))
+						resp = n > 0
+					}
+					_ = qc.CloseWithError(0, "")
+				}
+				r.sink.Emit("drv", "wr.peer", "policy", pol, "first", "0x16", "speaks_tls", true, "cert", cert, "byte", -1, "answered", resp, "transport", "quic")
+			}(cert)
+		}
 		// TLS speaking peers
 		for _, first := range []string{"0x16", "0x17"} {
 			for _, cert := range []string{"none", "trusted", "untrusted"} {
